@@ -173,3 +173,83 @@ func StorePointer(p *unsafe.Pointer, v unsafe.Pointer) {
 	zsim.Yield(zsim.KAtomic, unsafe.Pointer(p))
 	atomic.StorePointer(p, v)
 }
+
+// the rest of the function forms and the And/Or methods, so that whatever a
+// change to zap uses from sync/atomic still builds and still yields
+func SwapPointer(p *unsafe.Pointer, v unsafe.Pointer) unsafe.Pointer {
+	zsim.Yield(zsim.KAtomic, unsafe.Pointer(p))
+	return atomic.SwapPointer(p, v)
+}
+func CompareAndSwapPointer(p *unsafe.Pointer, o, n unsafe.Pointer) bool {
+	zsim.Yield(zsim.KAtomic, unsafe.Pointer(p))
+	return atomic.CompareAndSwapPointer(p, o, n)
+}
+func LoadUintptr(p *uintptr) uintptr {
+	zsim.Yield(zsim.KAtomic, unsafe.Pointer(p))
+	return atomic.LoadUintptr(p)
+}
+func StoreUintptr(p *uintptr, v uintptr) {
+	zsim.Yield(zsim.KAtomic, unsafe.Pointer(p))
+	atomic.StoreUintptr(p, v)
+}
+func AddUintptr(p *uintptr, d uintptr) uintptr {
+	zsim.Yield(zsim.KAtomic, unsafe.Pointer(p))
+	return atomic.AddUintptr(p, d)
+}
+func SwapUintptr(p *uintptr, v uintptr) uintptr {
+	zsim.Yield(zsim.KAtomic, unsafe.Pointer(p))
+	return atomic.SwapUintptr(p, v)
+}
+func CompareAndSwapUintptr(p *uintptr, o, n uintptr) bool {
+	zsim.Yield(zsim.KAtomic, unsafe.Pointer(p))
+	return atomic.CompareAndSwapUintptr(p, o, n)
+}
+func AndInt32(p *int32, m int32) int32 {
+	zsim.Yield(zsim.KAtomic, unsafe.Pointer(p))
+	return atomic.AndInt32(p, m)
+}
+func OrInt32(p *int32, m int32) int32 {
+	zsim.Yield(zsim.KAtomic, unsafe.Pointer(p))
+	return atomic.OrInt32(p, m)
+}
+func AndUint32(p *uint32, m uint32) uint32 {
+	zsim.Yield(zsim.KAtomic, unsafe.Pointer(p))
+	return atomic.AndUint32(p, m)
+}
+func OrUint32(p *uint32, m uint32) uint32 {
+	zsim.Yield(zsim.KAtomic, unsafe.Pointer(p))
+	return atomic.OrUint32(p, m)
+}
+func AndInt64(p *int64, m int64) int64 {
+	zsim.Yield(zsim.KAtomic, unsafe.Pointer(p))
+	return atomic.AndInt64(p, m)
+}
+func OrInt64(p *int64, m int64) int64 {
+	zsim.Yield(zsim.KAtomic, unsafe.Pointer(p))
+	return atomic.OrInt64(p, m)
+}
+func AndUint64(p *uint64, m uint64) uint64 {
+	zsim.Yield(zsim.KAtomic, unsafe.Pointer(p))
+	return atomic.AndUint64(p, m)
+}
+func OrUint64(p *uint64, m uint64) uint64 {
+	zsim.Yield(zsim.KAtomic, unsafe.Pointer(p))
+	return atomic.OrUint64(p, m)
+}
+func AndUintptr(p *uintptr, m uintptr) uintptr {
+	zsim.Yield(zsim.KAtomic, unsafe.Pointer(p))
+	return atomic.AndUintptr(p, m)
+}
+func OrUintptr(p *uintptr, m uintptr) uintptr {
+	zsim.Yield(zsim.KAtomic, unsafe.Pointer(p))
+	return atomic.OrUintptr(p, m)
+}
+
+func (x *Uint32) And(m uint32) uint32    { x.y(); return x.v.And(m) }
+func (x *Uint32) Or(m uint32) uint32     { x.y(); return x.v.Or(m) }
+func (x *Int64) And(m int64) int64       { x.y(); return x.v.And(m) }
+func (x *Int64) Or(m int64) int64        { x.y(); return x.v.Or(m) }
+func (x *Uint64) And(m uint64) uint64    { x.y(); return x.v.And(m) }
+func (x *Uint64) Or(m uint64) uint64     { x.y(); return x.v.Or(m) }
+func (x *Uintptr) And(m uintptr) uintptr { x.y(); return x.v.And(m) }
+func (x *Uintptr) Or(m uintptr) uintptr  { x.y(); return x.v.Or(m) }
